@@ -122,14 +122,36 @@ def dump_impl(ds):
     return dump
 
 
+_LOADERS = {}
+
+
 def load_impl(world, hpo, text_lines, cohort, salvage):
+    """every other load goes through a LONG-LIVED loader per configuration that has loaded other files before - and that has just
+    FAILED on a broken file (truncated last line, unparsable frequency): a loader keeps nothing from one load to the next"""
     from hpotk.annotations.load.hpoa import SimpleHpoaDiseaseLoader
     p = os.path.join(world, 'phenotype.hpoa')
     with open(p, 'w', encoding='utf-8', newline='') as fh:
         fh.write(''.join(l + '\n' for l in text_lines))
     with warnings.catch_warnings():
         warnings.simplefilter('ignore')
-        return SimpleHpoaDiseaseLoader(hpo, cohort_size=cohort, salvage_negated_frequencies=salvage).load(p)
+        if (len(text_lines) + cohort) % 2 == 0:
+            return SimpleHpoaDiseaseLoader(hpo, cohort_size=cohort, salvage_negated_frequencies=salvage).load(p)
+        key = (id(hpo), cohort, salvage)
+        if key not in _LOADERS:
+            _LOADERS[key] = SimpleHpoaDiseaseLoader(hpo, cohort_size=cohort, salvage_negated_frequencies=salvage)
+        loader = _LOADERS[key]
+        cols = 'database_id\tdisease_name\tqualifier\thpo_id\treference\tevidence\tonset\tfrequency\tsex\tmodifier\taspect\tbiocuration'
+        good = '\t'.join(['OMIM:777777', 'LEFTOVER', '', 'HP:0001167', 'PMID:9', 'PCS', '', '5/13', '', '', 'P', 'HPO:x'])
+        for broken in ([cols, good, '\t'.join(['OMIM:777777', 'LEFTOVER', '', 'HP:0001167', 'PMID:9', 'PCS', '', 'many', '', '', 'P', 'HPO:x'])],
+                       [cols, good, 'OMIM:777778\tTRUNCATED\t\tHP:0001167']):
+            b = os.path.join(world, 'broken.hpoa')
+            with open(b, 'w', encoding='utf-8', newline='') as fh:
+                fh.write(''.join(l + '\n' for l in broken))
+            try:
+                loader.load(b)
+            except Exception:  # noqa
+                pass
+        return loader.load(p)
 
 
 def property_clauses(dump, table, cohort, single_line_freq):
